@@ -31,7 +31,7 @@ AXES = {
     'alf_store_samples': [True, False], 'nan': ['none', 'amps', 'similar', 'attrs', 'template'],
     'attrs': ['none', 'right', 'wrong_len', 'both'], 'spikeless': ['none', 'first', 'middle', 'last'],
     'dat_path_str': [False, True], 'alf_skew': [False, True],
-    'dtype_amps': ['float64', 'float32'], 'dtype_templates': ['float32', 'float64'], 'dtype_feat': ['float32', 'float64'],
+    'fortran': [False, True], 'dtype_amps': ['float64', 'float32'], 'dtype_templates': ['float32', 'float64'], 'dtype_feat': ['float32', 'float64'],
 }
 RULE = ('Each case = one generated dataset directory (configuration vector over %d axes: %s) + random '
         'contents, loaded with the real load_model (params path given as str / Path / through a symlink / relative to the working directory; directory names with spaces and non-ASCII characters); every listed public attribute is compared with the '
@@ -83,6 +83,11 @@ def run_shard(desc, ctx):
             continue
         rng = np.random.default_rng([desc['seed'], 4, i])
         run_case({'opts': fill(rng, forced), 'seed': [desc['seed'], 4, i, 1], 'reject': None}, ctx)
+    if sh < 2:
+        # size: more than 2**20 (resp. 2**16) spikes with the single inversion exactly at that index
+        run_case({'opts': fill(np.random.default_rng(5), {'raw': 'none', 'features': 'none', 'tfeatures': False, 'names': 'ks',
+                                                       'attrs': 'none', 'nan': 'none', 'clusters': 'same'}),
+                  'seed': [desc['seed'], 4444, sh, 1], 'reject': 'seam', 'ns': [2 ** 20 + 8, 2 ** 16 + 8][sh]}, ctx)
     for i in range(desc['nrand']):
         if i % ns != sh:
             continue
@@ -101,8 +106,12 @@ def build(case):
         o['raw_parts'], o['raw_offset'] = 1, 0
     if o['sparse_templates']:
         pass
+    if case.get('ns'):
+        o['ns'] = case['ns']
+        o['n_samples'] = 4 * case['ns']
     spec = random_spec(rng, **{k: v for k, v in o.items() if k not in (
-        'nan', 'attrs', 'alf_store_samples', 'dat_path_str', 'alf_skew')})
+        'nan', 'attrs', 'alf_store_samples', 'dat_path_str', 'alf_skew', 'fortran')})
+    spec.notes['fortran'] = bool(o['fortran'])
     spec.alf_store_samples = o['alf_store_samples']
     if o['alf_skew'] and o['names'] == 'alf' and spec.alf_store_samples:
         # clock-synchronised seconds: monotonic but not bit-identical to samples / rate
@@ -125,12 +134,14 @@ def build(case):
     elif nan == 'attrs' and 'quality' in spec.spike_attrs:
         spec.spike_attrs['quality'][::3] = np.nan
         spec.spike_attrs['quality'][1] = np.inf
+        spec.spike_attrs['pos2'][::4, 1] = np.nan          # a 2-D attribute array too
+        spec.spike_attrs['pos2'][2, 0] = -np.inf
     elif nan == 'template':
         spec.templates[int(rng.integers(0, spec.n_templates))] = np.nan
         spec.notes['nan_template'] = True
     if case.get('reject'):
         s = spec.spike_samples.copy()
-        pos = {'first': 0, 'middle': ns // 2, 'last': ns - 2}[case['reject']]
+        pos = {'first': 0, 'middle': ns // 2, 'last': ns - 2, 'seam': (1 << (ns.bit_length() - 1)) - 1}[case['reject']]
         s[pos] = s[pos + 1] + 1 + int(rng.integers(0, 3))
         if spec.alf_times_custom is not None and ns % 2:
             # only the stored seconds are out of order, the stored samples stay sorted
@@ -167,8 +178,8 @@ def run_case(case, ctx):
     d0 = scratch_dir('c04_')
     import os
     from pathlib import Path
-    form = case['seed'][2] % 5
-    d = os.path.join(d0, ['ds', 'my data set', 'dät-ä (1)', 'ds', 'ds'][form])      # spaces / non-ASCII / brackets in the path
+    form = case['seed'][2] % 6
+    d = os.path.join(d0, ['ds', 'my data set', 'dät-ä (1)', 'ds', 'ds', 'ds'][form])      # spaces / non-ASCII / brackets in the path
     mon = monitors.CURRENT
     cwd0 = os.getcwd()
     try:
@@ -179,8 +190,17 @@ def run_case(case, ctx):
         elif form == 4:                     # relative to the current working directory
             os.chdir(d)
             params = 'params.py'
+        elif form == 5 and spec.raw is not None and spec.raw_ext != '.npy':
+            # the working directory holds other files with the names of the (relative) raw data files
+            decoy = os.path.join(d0, 'other session')
+            os.makedirs(decoy)
+            for k_ in range(len(spec.raw_parts or [1])):
+                with open(os.path.join(decoy, 'raw_t%d%s' % (9 + k_, spec.raw_ext)), 'wb') as f_:
+                    f_.write(b'\x07' * (spec.raw.nbytes + 64))
+            os.chdir(decoy)
+            params = str(params)
         else:
-            params = [str(params), Path(params), str(params)][form]
+            params = [str(params), Path(params), str(params), None, None, str(params)][form]
         before = snapshot(d)
         if mon.fs:
             mon.fs.watch(d)
